@@ -113,9 +113,12 @@ fn eval(a: &[String]) -> String {
       let mut out = "NONE".to_string();
       for y in (1900..2200).chain(1..1900).chain(2200..9999) {
         if LunarYear::from_year(y).get_leap_month() as i64 != v[1] { continue; }
-        let a = LunarDay::new(y, (if v[3] == 1 { -v[2] } else { v[2] }) as isize, v[4] as usize);
-        let b = LunarDay::new(y, (if v[6] == 1 { -v[5] } else { v[5] }) as isize, v[7] as usize);
-        if let (Ok(a), Ok(b)) = (a, b) {
+        // v[8] (optional): year of the second day minus year of the first
+        let dy = if v.len() > 8 { v[8] as isize } else { 0 };
+        if y + dy < 1 || y + dy > 9998 { continue; }
+        let a = std::panic::catch_unwind(|| LunarDay::new(y, (if v[3] == 1 { -v[2] } else { v[2] }) as isize, v[4] as usize));
+        let b = std::panic::catch_unwind(|| LunarDay::new(y + dy, (if v[6] == 1 { -v[5] } else { v[5] }) as isize, v[7] as usize));
+        if let (Ok(Ok(a)), Ok(Ok(b))) = (a, b) {
           let r = if v[0] == 0 { a.is_before(b.clone()) } else { a.is_after(b.clone()) };
           out = format!("{} {} {}", r, a.get_lunar_month().get_index_in_year(), b.get_lunar_month().get_index_in_year());
           break;
@@ -230,6 +233,63 @@ fn eval(a: &[String]) -> String {
           }
         }
         day = day.next(1);
+      }
+      out
+    }
+    "term_day_scan" => {
+      // scan real dates for a day whose reported term is not the latest one begun on or before it (or whose day index is off).
+      // v[0] = 1: years where the alignment contract holds (sample of 1583..7275); 0: Julian-era years around AD 1000
+      let years: Vec<isize> = if v[0] == 1 { (0..59).map(|k| 1583 + k * 97).chain(5255..5300).chain(6080..6090).chain(7230..7275).collect() } else { vec![999, 1000, 1001, 1200, 1400, 1500] };
+      let mut out = "NONE".to_string();
+      'scan: for y in years {
+        let mut day = SolarDay::from_ymd(y, 1, 1);
+        for _ in 0..365 {
+          let td = day.get_term_day();
+          let t = td.get_solar_term();
+          let tday = t.get_julian_day().get_solar_day();
+          let nday = t.next(1).get_julian_day().get_solar_day();
+          if day.is_before(tday) || !day.is_before(nday) || td.get_day_index() as isize != day.subtract(tday) {
+            out = format!("{}-{}-{} reported as {} day {} (that term's day {}-{}-{}, next term's day {}-{}-{})", day.get_year(), day.get_month(), day.get_day(),
+                          t.get_index(), td.get_day_index(), tday.get_year(), tday.get_month(), tday.get_day(), nday.get_year(), nday.get_month(), nday.get_day());
+            break 'scan;
+          }
+          day = day.next(1);
+        }
+      }
+      out
+    }
+    "season_scan" => {
+      // native confirmation for the C15 kernels: re-derive each series from the term days and the (day number + 49) mod 60 pillar
+      // and compare with the library on every day of a set of years.  kinds: 0 Nines, 1 pentads, 2 Dog days, 3 Plum rains
+      let dn = |d: &SolarDay| (d.get_julian_day().get_day() + 0.5) as i64;
+      let tday = |y: isize, i: isize| SolarTerm::from_index(y, i).get_julian_day().get_solar_day();
+      let years: Vec<isize> = vec![1700, 1995, 1997, 2000, 2002, 2011, 2012, 2021, 2023, 2024, 2040, 2042, 2500, 3000];
+      let mut out = "NONE".to_string();
+      'scan: for y in years {
+        let mut day = SolarDay::from_ymd(y, 1, 1);
+        let (wn, wc) = (dn(&tday(y + 1, 0)), dn(&tday(y, 0)));
+        let (s, l, g, h) = (dn(&tday(y, 12)), dn(&tday(y, 15)), dn(&tday(y, 11)), dn(&tday(y, 13)));
+        for _ in 0..SolarYear::from_year(y).get_day_count() {
+          let o = dn(&day);
+          let bad = match v[0] {
+            0 => { let gov = if o >= wn { wn } else { wc }; let k = o - gov;
+                   match day.get_nine_day() { Some(n) => !(0 <= k && k < 81) || n.get_nine().get_index() as i64 != k / 9 || n.get_day_index() as i64 != k % 9, None => 0 <= k && k < 81 } }
+            1 => { let td = day.get_term_day(); let di = td.get_day_index() as i64; let third = std::cmp::min(di / 5, 2);
+                   let p = day.get_phenology_day();
+                   p.get_phenology().get_index() as i64 != td.get_solar_term().get_index() as i64 * 3 + third || p.get_day_index() as i64 != di - 5 * third }
+            2 => { let stem = (s + 49).rem_euclid(60) % 10; let first = s + (6 - stem).rem_euclid(10) + 20; let fifth = first + 20; let a = o - first; let lm = l > fifth;
+                   let exp: Option<(i64, i64)> = if a < 0 { None } else if a < 10 { Some((0, a)) } else if a < 20 { Some((1, a - 10)) }
+                     else if lm { if a < 30 { Some((1, a - 10)) } else if a < 40 { Some((2, a - 30)) } else { None } } else if a < 30 { Some((2, a - 20)) } else { None };
+                   let got = day.get_dog_day().map(|d| (d.get_dog().get_index() as i64, d.get_day_index() as i64));
+                   got != exp }
+            _ => { let start = g + (2 - (g + 49).rem_euclid(60) % 10).rem_euclid(10); let end = h + (7 - (h + 49).rem_euclid(60) % 12).rem_euclid(12);
+                   let exp: Option<(i64, i64)> = if o < start || o > end { None } else if o == end { Some((1, 0)) } else { Some((0, o - start)) };
+                   let got = day.get_plum_rain_day().map(|d| (d.get_plum_rain().get_index() as i64, d.get_day_index() as i64));
+                   got != exp }
+          };
+          if bad { out = format!("{}-{}-{}", day.get_year(), day.get_month(), day.get_day()); break 'scan; }
+          day = day.next(1);
+        }
       }
       out
     }
